@@ -225,7 +225,38 @@ pub fn h8_short_str(s: &mut Src) {
         Err(e) => { vassert!(e.is_eof(), "P|h8|y"); vcover!(true, "eof"); done(e); }
     }
 }
+pub fn n1_pubprops_bad(s: &mut Src) {
+    let body = [5u8, 0x11, 0, 0, 0, 1];
+    let mut rd: &[u8] = &body;
+    let r = dec!(mp::v5::PublishProperties::decode_async(&mut rd, mp::v5::PacketType::Publish));
+    match r {
+        Ok(p) => { vassert!(false, "P|n1|x"); done(p); }
+        Err(e) => { vcover!(true, "rej"); done(e); }
+    }
+}
+pub fn n2_connackprops_bad(s: &mut Src) {
+    let body = [3u8, 0x23, 0, 1];
+    let mut rd: &[u8] = &body;
+    let r = dec!(mp::v5::ConnackProperties::decode_async(&mut rd, mp::v5::PacketType::Connack));
+    match r {
+        Ok(p) => { vassert!(false, "P|n2|x"); done(p); }
+        Err(e) => { vcover!(true, "rej"); done(e); }
+    }
+}
+pub fn n3_pubprops_default_drop(s: &mut Src) {
+    let p = mp::v5::PublishProperties::default();
+    drop(p);
+    vcover!(true, "ok");
+}
 scenarios! {
+    #[kani::unwind(8)]
+    #[kani::stub(<mqtt_proto_sync::Error as std::convert::From<std::io::Error>>::from, crate::model::from_io_eof_stub)]
+    probe_n1_pubprops_bad [1] => n1_pubprops_bad;
+    #[kani::unwind(8)]
+    #[kani::stub(<mqtt_proto_sync::Error as std::convert::From<std::io::Error>>::from, crate::model::from_io_eof_stub)]
+    probe_n2_connackprops_bad [1] => n2_connackprops_bad;
+    #[kani::unwind(8)]
+    probe_n3_pubprops_default_drop [1] => n3_pubprops_default_drop;
     #[kani::unwind(8)]
     #[kani::stub(<mqtt_proto_sync::Error as std::convert::From<std::io::Error>>::from, crate::model::from_io_eof_stub)]
     #[kani::stub(simdutf8::basic::from_utf8, crate::model::from_utf8_class_stub)]
